@@ -26,7 +26,7 @@ META = {
             "event of the history': the same object is saved and lives on, so saves interleave with replacing / "
             "new add, set, delete, load and further saves) after the first load: lookup()/check() equal the "
             "reference for 4 names x 3 keys, in EVERY reached state the table saved now and reloaded gives the "
-            "in-memory lookups, loading the same file again changes neither lookups, key lists nor saved text.",
+            "in-memory lookups (both writers: HostKeys.save and SSHClient.save_host_keys), loading the same file again changes neither lookups, key lists nor saved text.",
     "note": "states whose saved text differs from the reference table (only reachable through a reported defect) "
             "are checked but not expanded; entries with key None (HostKeys.__setitem__ with an empty dict) and "
             "undecodable base64 are outside the space",
@@ -296,6 +296,28 @@ def judge(file_names, file_text, hist, ev, st, acc):
     except Exception as e:
         acc.violation("save-reload-raises:%s" % type(e).__name__, {"file": file_names, "history": hist + [ev],
                                                                    "error": repr(e)}, rep)
+        ok = False
+    # O3b the other save API: SSHClient.save_host_keys() writes the client's HostKeys table with its own writer
+    # (one line per reported name and key type); reloading that file must give the in-memory lookups as well
+    try:
+        cl = paramiko.SSHClient()
+        cl._host_keys = st.hk
+        p2 = os.path.join(st.tmp, "obs-client")
+        cl.save_host_keys(p2)
+        acc.count("client_saves_judged")
+        look2 = reload_lookups(p2)
+        for h in UNIVERSE:
+            if look2[h] != obs["lookup"][h]:
+                with open(p2) as f:
+                    saved2 = f.read()
+                acc.violation("save-reload-changes-lookup:SSHClient.save_host_keys",
+                              {"file": file_names, "history": hist + [ev], "name": h, "before": obs["lookup"][h],
+                               "after": look2[h], "saved": saved2}, rep)
+                ok = False
+                break
+    except Exception as e:
+        acc.violation("save-reload-raises:%s:SSHClient.save_host_keys" % type(e).__name__,
+                      {"file": file_names, "history": hist + [ev], "error": repr(e)}, rep)
         ok = False
     # O4 loading the same file again (nothing but loads / save+reload before) changes nothing
     if st.before is not None:
